@@ -71,4 +71,4 @@ def cuts_for(draw, total: int, interesting: list[int], max_cuts: int = 12):
 
 
 def chunk_kinds():
-    return st.lists(st.integers(0, 3), min_size=1, max_size=6)
+    return st.lists(st.sampled_from([0, 1, 2, 3, 4, 5, 0, 1, 2, 3]), min_size=1, max_size=6)
